@@ -59,6 +59,9 @@ func (r *responseStorer) StoreResponse(
 ) error {
 	// Remove hop-by-hop headers as per RFC 9111 §3.1
 	removeHopByHopHeaders(resp)
+	// A Date that the response's own Connection field named went with them: a stored response
+	// without a Date has no age (RFC 9110 §6.6.1: a recipient with a clock supplies it).
+	FixDateHeader(resp.Header, respTime)
 
 	// Vary is a list field that may span several field lines (RFC 9110 §5.3).
 	vary := strings.Join(resp.Header.Values("Vary"), ",")
